@@ -350,7 +350,14 @@ def given_exception_matches(err, exc) -> bool:
         return False
     if not isclass(err):
         err = type(err)
-    return issubclass(err, exc)
+    if isinstance(exc, tuple):
+        return any(given_exception_matches(err, element) for element in exc)
+    # The interpreter matches on the method resolution order only: neither
+    # `__subclasscheck__` of a metaclass nor the registry of an ABC is consulted.
+    if not isclass(exc):
+        # Not a valid handler: fails like the interpreter does.
+        return issubclass(err, exc)
+    return any(base is exc for base in err.__mro__)
 
 
 def string_distance(string1: str, string2: str) -> float:
